@@ -1,0 +1,30 @@
+//go:build verif
+
+package litestream
+
+import (
+	"context"
+	"io"
+	"log/slog"
+	"os"
+
+	"github.com/superfly/ltx"
+)
+
+// Exported wrappers used only by the verification harness (build tag "verif"), Ltx layer.
+
+// WriteLTXFromWALVerif runs (*DB).writeLTXFromWAL — the incremental-sync page
+// selection with its growth fill and lock-page skip — on a DB value that only
+// has the fields that function reads: the database file, the page size and a
+// logger. The caller supplies the encoder (header already written), the WAL
+// file the page map points into, and the page map itself.
+func WriteLTXFromWALVerif(ctx context.Context, dbFile, walFile *os.File, pageSize int, enc *ltx.Encoder, prevCommit, commit uint32, pageMap map[uint32]int64) error {
+	db := &DB{pageSize: pageSize, f: dbFile, Logger: slog.New(slog.NewTextHandler(io.Discard, nil))}
+	return db.writeLTXFromWAL(ctx, enc, walFile, prevCommit, commit, pageMap)
+}
+
+// WriteLTXFromDBVerif runs (*DB).writeLTXFromDB (full-image page selection) the same way.
+func WriteLTXFromDBVerif(ctx context.Context, dbFile, walFile *os.File, pageSize int, enc *ltx.Encoder, commit uint32, pageMap map[uint32]int64) error {
+	db := &DB{pageSize: pageSize, f: dbFile, Logger: slog.New(slog.NewTextHandler(io.Discard, nil))}
+	return db.writeLTXFromDB(ctx, enc, walFile, commit, pageMap)
+}
